@@ -5,6 +5,7 @@ import itertools
 SHAPES = {
     'U1': (0, 1, 0, 0), 'D1': (0, -1, 0, 0), 'U2w': (0, 2, 1, 1), 'D2w': (0, -2, 1, 1),
     'GU': (2, 0, 0, 0), 'GD': (-2, 0, 0, 0), 'DOJI': (0, 0, 1, 1), 'FLAT': (0, 0, 0, 0),
+    'DOJI2': (0, 0, 2, 2),
     'U3': (0, 3, 0, 1), 'D3': (0, -3, 1, 0), 'GU2': (3, -1, 0, 0), 'GD2': (-3, 1, 0, 0),
 }
 SIGMA6 = ['U1', 'D1', 'U2w', 'D2w', 'GU', 'GD']
